@@ -38,6 +38,20 @@ Definition LP : list lookup :=
   [ mkLookup 1 6 [Gpos1_1 [1; 2; 6] (Some (mkV 0 (-10) 32767)); Gpos1_2 [2; 9] [None; Some (mkV (-32768) 0 0)]];
     mkLookup 1 0 [Gpos1_2 [8] [Some (mkV 1 2 3)]; Gpos1_1 [] None] ].
 
+(* GSUB5: glyph sequences, classes, coverage sets; three subtables in one lookup *)
+Definition LC : list lookup :=
+  [ mkLookup 5 8 [Ctx (SeqCtx1 [1; 4] [[([2; 3], [(1, 0); (2, 1)]); ([], [])]; [([9], [(65535, 3)])]]);
+                  Ctx (SeqCtx2 [1; 2] [[3; 5]; [1]] [[([1; 2], [(0, 0)])]; []; [([], []); ([0; 2], [(7, 1)])]]);
+                  Ctx (SeqCtx3 [[1; 2]; []; [9]] [(3, 0)])];
+    mkLookup 5 0 [Ctx (SeqCtx2 [] [] [[([0], [])]])];
+    mkLookup 1 2 [Gsub1_1 [1; 2; 3] 1] ].
+Example F0_no_class : no_class_names F0 = true.  Proof. vm_compute. reflexivity. Qed.
+Example LC_wf : forallb (gsub_lookup_wf5 F0) LC = true.  Proof. vm_compute. reflexivity. Qed.
+Example LC_roundtrip : M_parse U0 F0 (M_explain_gsub U0 F0 LC) = POk LC.
+Proof. vm_compute. reflexivity. Qed.
+Example LC_roundtrip_unnamed : M_parse U0 F1 (M_explain_gsub U0 F1 LC) = POk LC.
+Proof. vm_compute. reflexivity. Qed.
+
 Example LG_wf : forallb (gsub_lookup_wf F0) LG = true.  Proof. vm_compute. reflexivity. Qed.
 Example LP_wf : forallb (gpos_lookup_wf F0) LP = true.  Proof. vm_compute. reflexivity. Qed.
 Example LG_wf1 : forallb (gsub_lookup_wf F1) LG = true.  Proof. vm_compute. reflexivity. Qed.
